@@ -266,35 +266,50 @@ func privKey[T Number, A ND[T, A]](root *Root[T, A], v A) string {
 	for rv.Kind() == reflect.Interface || rv.Kind() == reflect.Ptr {
 		rv = rv.Elem()
 	}
-	// every field of the embedded layout struct, whatever it is called (a field added by a later version of the
-	// library makes the key finer, never coarser), then where the view's storage pointer points
+	// every field of the view's private representation, whatever it is called (a field added by a later version of the
+	// library makes the key finer, never coarser); pointers and storage slices are described by where they point
+	// relative to the root's storage, never followed
 	var b strings.Builder
-	for i := 0; i < rv.NumField(); i++ {
-		f := rv.Field(i)
-		if rv.Type().Field(i).Name == "Impl" {
-			continue
+	size := root.Elem * uintptr(len(root.Raw()))
+	where := func(p uintptr) string {
+		if p >= root.Base && p < root.Base+size+root.Elem {
+			return fmt.Sprintf("root+%d", (p-root.Base)/root.Elem)
 		}
-		if f.Kind() == reflect.Struct {
-			for j := 0; j < f.NumField(); j++ {
-				fmt.Fprintf(&b, "%s=%v;", f.Type().Field(j).Name, f.Field(j))
+		if p < root.Base && root.Base-p <= 64*root.Elem {
+			return fmt.Sprintf("root-%d", (root.Base-p)/root.Elem)
+		}
+		return "elsewhere"
+	}
+	var describe func(name string, f reflect.Value, depth int)
+	describe = func(name string, f reflect.Value, depth int) {
+		switch f.Kind() {
+		case reflect.Struct:
+			if depth > 3 {
+				return
 			}
-		} else {
-			fmt.Fprintf(&b, "%s=%v;", rv.Type().Field(i).Name, f)
+			for j := 0; j < f.NumField(); j++ {
+				describe(name+f.Type().Field(j).Name+".", f.Field(j), depth+1)
+			}
+		case reflect.Ptr, reflect.UnsafePointer:
+			fmt.Fprintf(&b, "%s=%s;", name, where(f.Pointer()))
+		case reflect.Slice:
+			if f.Type().Elem().Kind() == reflect.Int {
+				fmt.Fprintf(&b, "%s=%v;", name, f)
+			} else if f.Len() > 0 {
+				w := where(f.Pointer())
+				if w == "elsewhere" { // a private copy: its content is part of the state
+					fmt.Fprintf(&b, "%s=copy%v;", name, f)
+				} else {
+					fmt.Fprintf(&b, "%s=%s,len=%d;", name, w, f.Len())
+				}
+			} else {
+				fmt.Fprintf(&b, "%s=empty;", name)
+			}
+		case reflect.Bool, reflect.Int, reflect.Int8, reflect.Int16, reflect.Int32, reflect.Int64, reflect.Uint, reflect.Uint8, reflect.Uint16, reflect.Uint32, reflect.Uint64, reflect.Float32, reflect.Float64, reflect.String:
+			fmt.Fprintf(&b, "%s=%v;", name, f)
 		}
 	}
-	impl := rv.FieldByName("Impl")
-	switch impl.Kind() {
-	case reflect.Slice:
-		p := impl.Pointer()
-		n := uintptr(impl.Len())
-		if impl.Len() > 0 && p >= root.Base && p < root.Base+root.Elem*uintptr(len(root.Raw())) {
-			fmt.Fprintf(&b, "impl=root+%d,len=%d", (p-root.Base)/root.Elem, n)
-		} else {
-			fmt.Fprintf(&b, "impl=copy%v", impl.Interface())
-		}
-	case reflect.Ptr:
-		fmt.Fprintf(&b, "impl=c+%d", (impl.Pointer()-root.Base)/root.Elem)
-	}
+	describe("", rv, 0)
 	return b.String()
 }
 
